@@ -65,6 +65,55 @@ def valid_blob(hid=4, pos=(361, 17, 13), data=PLAIN, trailing=False, symbolic=Tr
     return blob
 
 
+def valid_blob_pub(hid=4, pos=(361, 17, 13), mode="DH", data=PLAIN, symbolic=True, seed=5):
+    """A blob protected by a caller who only received the group PUBLIC key (DH small group / ECDH); the matching root key
+    spec (for the model and for KeyCache.load_key) is returned with it: unprotect derives the group private key offline."""
+    from dpapi_ng._blob import ProtectionDescriptor
+
+    from . import e2e
+
+    salg = "DH" if mode == "DH" else mode
+    roots = [e2e.root_spec(hid, secret_alg=salg, priv=64)]
+    plen = 8
+    draws = [bytes((seed + i) % 256 for i in range(32)), bytes((seed * 3 + i) % 256 for i in range(12)), bytes((seed * 7 + i + 1) % 256 for i in range(plen))]
+    cm = sym.patched() if symbolic else sym.kdf_budget(10 ** 6)
+    with cm:
+        sd = ProtectionDescriptor.parse(SID).get_target_sd()
+        penv, _ = e2e.dc_envelopes(hid, sd, pos, mode)
+    blob = e2e.protect_with_env(penv, draws if symbolic else None, data, SID, symbolic=symbolic)
+    return roots, blob
+
+
+def pubkey_field_edits(blob: bytes) -> t.Iterator[bytes]:
+    """key_info of a public-key blob is an FFCDHKey ('DHPB' magic, key_length, p, g, y) or an ECDHKey ('ECK1/3' magic, length, x, y):
+    set the length / the numbers to boundary values (consistent and inconsistent with the octets that follow)."""
+    for magic in (b"DHPB", b"ECK1", b"ECK3", b"ECK5"):
+        i = blob.find(magic)
+        if i < 0:
+            continue
+        for v in (0, 1, 2, 5, 7, 8, 255, 256, 257, 2 ** 16, 2 ** 31 - 1, 2 ** 31, 2 ** 32 - 1):
+            m = bytearray(blob)
+            m[i + 4 : i + 8] = v.to_bytes(4, "little")
+            yield bytes(m)
+        klen = int.from_bytes(blob[i + 4 : i + 8], "little")
+        if 0 < klen < 64:
+            for field in range(3):
+                off = i + 8 + field * klen
+                for fill in (b"\x00", b"\xff", b"\x01"):
+                    m = bytearray(blob)
+                    m[off : off + klen] = fill * klen
+                    yield bytes(m)
+            # a shorter, self-consistent key (re-encoded with key_length - 1 .. 1)
+            for nl in (klen - 1, 1):
+                body = b"".join(blob[i + 8 + f * klen : i + 8 + f * klen + klen][-nl:] for f in range(3 if magic == b"DHPB" else 2))
+                yield blob[: i + 4] + nl.to_bytes(4, "little") + body + blob[i + 8 + (3 if magic == b"DHPB" else 2) * klen :]
+        for mg in (b"DHPM", b"XXXX", b"ECK1", b"DHPB"):
+            if mg != magic:
+                m = bytearray(blob)
+                m[i : i + 4] = mg
+                yield bytes(m)
+
+
 def der_len(n: int) -> bytes:
     if n < 128:
         return bytes([n])
